@@ -9,8 +9,12 @@ import time
 from .. import common
 from ..common import log
 
-MULTIBYTE = ["é", "́", "€", "\U0001F980"]   # 2 bytes XID_Start, 2 bytes XID_Continue only, 3 bytes, 4 bytes
+# 2 bytes XID_Start, 2 bytes XID_Continue only, 3 bytes, 4 bytes, and two multi-byte *whitespace* characters (2 and 3 bytes)
+MULTIBYTE = ["é", "́", "€", "\U0001F980", "\u00a0", "\u3000"]
 BOUNDS = {"quick": int(os.environ.get("VERIF_L_QUICK_N", "5")), "thorough": int(os.environ.get("VERIF_L_THOROUGH_N", "6"))}
+# second pass: longer literals over the reduced alphabet of the characters the grammar gives a meaning to
+DEEP_ALPHABET = "{}:.*$01 a?x"
+DEEP_BOUNDS = {"quick": int(os.environ.get("VERIF_L_QUICK_DEEP", "7")), "thorough": int(os.environ.get("VERIF_L_THOROUGH_DEEP", "8"))}
 
 FAIL_TEXT = {
     1: "std accepts the literal, derive_more's parser returns None",
@@ -20,6 +24,7 @@ FAIL_TEXT = {
     5: "different presence of fill / alignment / sign / # / 0 / width / precision",
     6: "implicit argument resolved to a different position",
     8: "std rejects the literal but derive_more takes it as one bare placeholder (delegated without reaching format_args!)",
+    10: "format() consumed a different extent than the literal's first placeholder (it decides delegation of the whole attribute)",
 }
 
 
@@ -45,7 +50,8 @@ def explore(tier, prop):
     workers = common.NCPU
     total_stats = {}
     all_recs = []
-    for n in range(0, N + 1):
+    passes = [(n, "full") for n in range(0, N + 1)] + [(n, "deep") for n in range(N + 1, DEEP_BOUNDS[tier] + 1)]
+    for n, which in passes:
         outdir = os.path.join(scratch, "paths-%d" % n)
         os.makedirs(outdir)
         slots = multiprocessing.Semaphore(workers - 1)
@@ -53,7 +59,7 @@ def explore(tier, prop):
         bs = [z3.BitVec("b%d" % i, 8) for i in range(n)]
         digest_base = [None]
 
-        def setup(ex, st, n=n, bs=bs):
+        def setup(ex, st, n=n, bs=bs, which=which):
             buf = st.alloc(max(n, 1), "input")
             for i in range(n):
                 buf.data[i] = bs[i]
@@ -64,8 +70,10 @@ def explore(tier, prop):
             fr.regs[names[0]] = buf.base
             fr.regs[names[1]] = n
             fr.regs[names[2]] = dg.base
-            if n:
+            if n and which == "full":
                 st.pc.append(driver.utf8_alphabet_constraint(bs, n, lambda b: z3.ULT(b, 0x80), MULTIBYTE))
+            elif n:
+                st.pc.append(z3.And(*[z3.Or(*[b == ord(c) for c in DEEP_ALPHABET]) for b in bs]))
 
         def describe(kind, detail, st, m, bs=bs):
             inp = [m.eval(b, model_completion=True).as_long() for b in bs] if m is not None else None
@@ -100,11 +108,11 @@ def explore(tier, prop):
         dt = time.time() - t
         if not ok:
             res["inconclusive"].append("a worker process of the length-%d exploration died" % n)
-        res["lengths"][n] = {"paths": stats.get("paths", 0), "forks": stats.get("forks", 0), "queries": stats.get("queries", 0),
+        res["lengths"][n] = {"alphabet": which, "paths": stats.get("paths", 0), "forks": stats.get("forks", 0), "queries": stats.get("queries", 0),
                              "instrs": stats.get("instrs", 0), "solver_s": round(solver_s, 2), "wall_s": round(dt, 2),
                              "ends": {k[4:]: v for k, v in stats.items() if k.startswith("end_")}}
-        log("[%s] len=%d paths=%d queries=%d solver=%.1fs wall=%.1fs ends=%s" % (
-            prop, n, stats.get("paths", 0), stats.get("queries", 0), solver_s, dt, res["lengths"][n]["ends"]))
+        log("[%s] len=%d (%s alphabet) paths=%d queries=%d solver=%.1fs wall=%.1fs ends=%s" % (
+            prop, n, which, stats.get("paths", 0), stats.get("queries", 0), solver_s, dt, res["lengths"][n]["ends"]))
         all_recs.extend(recs)
         for k, v in stats.items():
             total_stats[k] = total_stats.get(k, 0) + v
@@ -162,9 +170,10 @@ def coverage_common(res, tier):
         "functions_encoded": ["impl/src/fmt/parsing.rs (whole file, included by #[path]): format_string, format and every combinator",
                               "impl/src/fmt/mod.rs::Placeholder::parse_fmt_string, Parameter (cut verbatim by item name)",
                               "vf/llsym/rust/oracle.rs::reference (restated rustc_parse_format, pinned against the real one by vf/llsym/rust/validator)"],
-        "bounds": {"literal_length_bytes": "0..=%d" % BOUNDS[tier],
-                   "alphabet": "every ASCII byte (0x00-0x7f) and the characters é (2-byte, XID_Start), U+0301 (2-byte, XID_Continue only), € (3-byte), U+1F980 (4-byte); well-formed UTF-8",
-                   "outside": "longer literals; other non-ASCII characters"},
+        "bounds": {"literal_length_bytes": "0..=%d over the full alphabet, %d..=%d over the reduced alphabet" % (BOUNDS[tier], BOUNDS[tier] + 1, DEEP_BOUNDS[tier]),
+                   "alphabet": "every ASCII byte (0x00-0x7f) and the characters é (2-byte, XID_Start), U+0301 (2-byte, XID_Continue only), € (3-byte), U+1F980 (4-byte), U+00A0 and U+3000 (2- and 3-byte whitespace); well-formed UTF-8",
+                   "reduced_alphabet": DEEP_ALPHABET,
+                   "outside": "longer literals; other non-ASCII characters; longer literals with characters outside the reduced alphabet"},
         "per_length": L,
         "solver_time_s": round(sum(v["solver_s"] for v in L.values()), 1),
         "instructions_executed": sum(v["instrs"] for v in L.values()),
